@@ -55,7 +55,7 @@ def quantifier(facts, t, mapping):
     if not bind:
         return None
     clo, m = bind[0]
-    cb = facts.by_uid.get(clo[1])
+    cb = facts.cb(clo[1])
     if cb is None:
         return None
     return (call[2][0], cb, m, pol)
@@ -105,7 +105,7 @@ def mrg_mvreg(ctx):
             if not pp or pp[1][-1:] != (vf,):
                 continue
             side = pp[0]
-            cb = facts.by_uid.get(clo[1])
+            cb = facts.cb(clo[1])
             cit = interp(facts, cb)
             ctx.analysed.add(cb.key)
             q = quantifier(facts, cit.ret, mapping)
@@ -181,7 +181,7 @@ def mv_evict(ctx):
             pp = param_path(iter_source(item[1] if item[0] == 'item' else item)[0])
             if not pp or pp[0] != 1 or pp[1] != (vf,):
                 continue
-            cb = facts.by_uid.get(clo[1])
+            cb = facts.cb(clo[1])
             cit = interp(facts, cb)
             ctx.analysed.add(cb.key)
             hit = []
@@ -416,8 +416,48 @@ def mv_write(ctx):
     ctx.check(ok, 'write', body, 'Put{clock: ctx.clock, val}', 'MVReg::write builds %s, expected Put{clock: ctx.clock, val: val}' % fmt(r))
 
 
-def _join_of_vals(facts, t, vf):
+def _join_loop_form(facts, t, vf, body):
+    """t is an accumulator local: initialised to the empty clock, and merged with the clock of every item of a loop
+    over all of self.vals (unconditionally, and nothing else touches it inside the loop)."""
+    from .loops import loops_of
+    from ..ordset import Reach, Evaluator
+    if t[0] == 'call' and cinfo(t[1])['local'] and len(t[2]) == 1 and param_path(t[2][0]) == (1, ()):
+        cb = facts.cb(cinfo(t[1])['uid'])
+        if cb is None or cb.derived:
+            return False
+        return _join_loop_form(facts, interp(facts, cb).ret, vf, cb)
+    if t[0] != 'lv':
+        return False
+    head, local, init = t[1], t[2], drop_lv(t[3])
+    if not (init[0] == 'call' and cinfo(init[1])['name'] in ('new', 'default') and 'VClock' in (init[1] or '')):
+        return False
+    it = interp(facts, body)
+    lp = [l for l in loops_of(it) if l.head == head]
+    if not lp or not lp[0].whole_over(1, (vf,)) or lp[0].early_exits():
+        return False
+    lp = lp[0]
+    sites, other = [], []
+    for (bb, ai), w in it.muts.items():
+        if bb in lp.blocks and w.loc[0] == ('L', int(local[1:])):
+            c = it.calls[bb]
+            a1 = c.args[1].val if len(c.args) == 2 else None
+            src = as_item(versionless(a1)[1]) if a1 is not None and versionless(a1)[0] == 'field' and versionless(a1)[2] == '0' else None
+            if ai == 0 and is_call(c.term, 'merge', self_adt='VClock') and src is not None and versionless(src) == versionless(lp.src):
+                sites.append(bb)
+            else:
+                other.append(bb)
+    for (bb, si), w in it.writes.items():
+        if bb in lp.blocks and w.loc[0] == ('L', int(local[1:])) and not (w.val[0] == 'lv' or versionless(w.val) == versionless(t)):
+            other.append(bb)
+    if other or not sites:
+        return False
+    return lp.must(Reach(facts, body, Evaluator(facts)), sites)
+
+
+def _join_of_vals(facts, t, vf, body=None):
     """t == fold over all of self.vals joining every value clock."""
+    if body is not None and _join_loop_form(facts, t, vf, body):
+        return True
     t = expand_all(facts, t, stop=())
     t = drop_lv(t)
     if not (is_call(t, 'fold') and len(t[2]) == 3):
@@ -425,7 +465,7 @@ def _join_of_vals(facts, t, vf):
     if not whole_iteration_over(t[2][0], 1, (vf,)):
         return False
     for clo, m in closure_bindings(t):
-        cb = facts.by_uid.get(clo[1])
+        cb = facts.cb(clo[1])
         if cb is None:
             return False
         cit = interp(facts, cb)
@@ -454,8 +494,8 @@ def mv_read(ctx):
             ctx.fail(name, body, 'does not return a ReadCtx')
             continue
         f = dict(r[3])
-        a_ok = _join_of_vals(facts, f['add_clock'], vf)
-        r_ok = _join_of_vals(facts, f['rm_clock'], vf)
+        a_ok = _join_of_vals(facts, f['add_clock'], vf, body)
+        r_ok = _join_of_vals(facts, f['rm_clock'], vf, body)
         v_ok = True
         if name == 'read':
             v = f['val']
@@ -467,7 +507,7 @@ def mv_read(ctx):
                     if clo:
                         for n, cl in clo:
                             if cl and cl[0] == 'closure':
-                                cb = facts.by_uid.get(cl[1])
+                                cb = facts.cb(cl[1])
                                 cr = interp(facts, cb).ret
                                 if versionless(cr) == ('field', ('param', 2), '1'):
                                     v_ok = True
@@ -506,7 +546,7 @@ def mv_eq(ctx):
                     if not inner_side or inner_side[1] != (vf,) or set(iter_adaptors(f[2][0])) & LOSSY_ADAPTORS:
                         return None
                     for clo, m in closure_bindings(f):
-                        cb = facts.by_uid.get(clo[1])
+                        cb = facts.cb(clo[1])
                         cr = drop_lv(subst(interp(facts, cb).ret, m))
                         if cr[0] == 'call' and cinfo(cr[1])['name'] == 'eq' and len(cr[2]) == 2:
                             a, b = versionless(cr[2][0]), versionless(cr[2][1])
